@@ -6,6 +6,8 @@ for d in seeded/*/; do
   name=$(basename $d); [ -n "${1:-}" ] && [[ "$name" != $1 ]] && continue; id=${name%%_*}; id=${id:0:3}
   [ -z "$(git -C /repo status --porcelain)" ] || { echo "/repo not clean"; exit 2; }
   git -C /repo apply /verif/$d/patch.diff || { echo "$name: patch does not apply"; continue; }
+  # a seed whose mechanism belongs to a neighbouring property names the check that decides it
+  [ -f /verif/$d/detect_with ] && id=$(cat /verif/$d/detect_with)
   out=$(./check $id --tier quick 2>&1); rc=$?
   git -C /repo checkout -- .; (cd /verif/harness && CARGO_NET_OFFLINE=true cargo build --release --quiet 2>/dev/null)
   keys=$(echo "$out" | grep -o 'key=[^ ]*' | sort -u | head -5 | tr '\n' ' ')
